@@ -86,8 +86,11 @@ impl PropImpl for C14 {
          print/parse round trip through the lossy reader, reading of the print by the lossless reader, lossy->lossless->lossy conversions, Entry<->Vec conversions, both builders. \
          Non-trivial: a relation with >= 2 optional parts or a multi-term profile group. Distinct by hash of the value.".into()
     }
+    fn expected_labels(&self) -> Vec<&'static str> {
+        vec!["empty-field", "has:alternatives", "part:architectures", "part:architectures+profiles", "part:archqual", "part:multi-term-profile-group", "part:negated-architecture", "part:profiles", "part:version", "plain-name"]
+    }
     fn budget(&self, tier: Tier) -> Budget {
-        Budget { cases_per_lane: if tier == Tier::Quick { 20000 } else { 100_000 }, tape_max: 400, cpu_s: 10 }
+        Budget { cases_per_lane: if tier == Tier::Quick { 60000 } else { 240000 }, tape_max: 400, cpu_s: 10 }
     }
     fn spaces(&self, _tier: Tier) -> Vec<Space> {
         vec![Space { name: "one relation: all part subsets x operators x names".into(), size: 2 * 2 * 6 * 3 * 3, exhaustive: true }]
